@@ -67,6 +67,9 @@ func (m *Map) KeyID(s string) int { return m.idx[s] }
 // EmptyBase: value ids >= EmptyBase denote "the empty value written to key id-EmptyBase".
 const EmptyBase = 900000
 
+// BigBase: value ids in [BigBase, BigBase+100000) are 40 kB values.
+const BigBase = 600000
+
 var sizes = []int{0, 0, 12, 300, 5000}
 
 // Value maps a value id (>0) to bytes. The id is recoverable from the bytes; the padding
@@ -76,6 +79,9 @@ func Value(vid int) []byte {
 		return []byte{}
 	}
 	pad := sizes[vid%len(sizes)]
+	if vid >= BigBase && vid < BigBase+100000 {
+		pad = 40000 // a few of these in one transaction exceed 64 KiB (each one stays below the 16-bit length limit, D11)
+	}
 	var b bytes.Buffer
 	b.WriteString("v")
 	b.WriteString(strconv.Itoa(vid))
